@@ -12,6 +12,13 @@ Objects are numbered in creation order (meshes and caller arrays alike). ops:
   ["load", m, ext]                              save mesh m to a scratch file and load it again
   ["subdiv", m, "loop"|"3quads"]                SurfaceSubdivision on a triangle mesh; the new mesh
   ["border", m]                                 extract_boundary_of_surface / extract_boundary_of_volume
+  ["tree", m, "edge"|"face"|"cell"]             spanning tree of m exported with build_tree_as_polyline()
+  ["path", m, start, [targets]]                 shortest_path(m, start, targets, export_path_mesh=True)[1]
+  ["cutgraph", m, [singular vertices]]          SingularityCutter(m, s).run(); .cut_graph
+  ["features", m]                               FeatureEdgeDetector().run(m); .feature_graph
+  ["attr", m, cont, a, [values]]                integer attribute "a<a>" on container cont of mesh m, keys 0..len-1
+  ["attr_edit", m, cont, a, key, value]         m.<cont>.get_attribute("a<a>")[key] = value
+  ["elem_edit", m, "edges"|"faces"|"cells", k]  element k replaced by a cyclic shift of itself (m.<cont>[k] = ...)
   ["copy", m, copy_attributes, copy_connectivity]
   ["merge", [m, ...]]
   ["translate", m, t]       t = [x,y,z] | ["slot", obj, i] (the very object stored in that slot is passed)
@@ -25,7 +32,9 @@ step : {"ok": true, "new": null | {"kind": 0..3|-1 (array), "edges": [...], "fac
                                     "fc"/"cc"/"cf": [elem, owner] tables of face_corners / cell_corners / cell_faces,
                                     "src": the same description of the source(s) taken just before a copy / merge,
                                     "shares_connectivity": bool},
-        "objs": [ {"xyz": [[x,y,z]..], "cls": [classid..]} .. ]}      (all live objects, class ids canonical by first occurrence)
+        "objs": [ {"xyz": [[x,y,z]..], "cls": [classid..], "attrs": [[cont, a, [values]]..], "elems": [edges, faces, cells],
+                   "attr_ids": identity classes of the attribute stores} .. ]}
+                                                            (all live objects, class ids canonical by first occurrence)
      | {"ok": false, "err": [type, message]}        (the history stops there)
 Numbers are binary64 and travel as JSON floats (repr round-trips exactly).
 """
@@ -44,10 +53,47 @@ PARAMS = []      # the caller's point arguments of the last procedural call (kep
 
 
 def V3(x):
+    """the caller's vector: integer-valued coordinates are passed as Python ints (numpy then builds an int64 Vec)"""
     import mouette as M
-    v = M.Vec(float(x[0]), float(x[1]), float(x[2]))
+    c = [int(t) if float(t) == int(t) and INTS[0] else float(t) for t in x[:3]]
+    v = M.Vec(c[0], c[1], c[2])
     PARAMS.append(v)
     return v
+
+
+INTS = [False]   # set per case: pass integer-valued numbers as ints wherever the API takes numbers
+CONTS = ["vertices", "edges", "faces", "face_corners", "cells", "cell_corners", "cell_faces"]
+
+
+def attr_state(o):
+    """[[cont index, a, values]] of the attributes a<k> created by the harness, and the identity of every store"""
+    out, ids = [], []
+    if isinstance(o, np.ndarray):
+        return out, ids
+    for ci, cn in enumerate(CONTS):
+        c = getattr(o, cn, None)
+        if c is None:
+            continue
+        for name in sorted(c.attributes):
+            if not (name.startswith("a") and name[1:].isdigit()):
+                continue
+            at = c.get_attribute(name)
+            n = len(c)
+            vals = []
+            for k in range(n):
+                try:
+                    vals.append(int(at[k]))
+                except Exception:
+                    vals.append(None)
+            out.append([ci, int(name[1:]), vals])
+            ids.append([ci, int(name[1:]), id(at), id(at._data)])
+    return out, ids
+
+
+def elem_state(o):
+    if isinstance(o, np.ndarray):
+        return [[], [], []]
+    return [[[int(a) for a in e] for e in getattr(o, cn)] if hasattr(o, cn) else [] for cn in ("edges", "faces", "cells")]
 
 
 def proc(name, p):
@@ -118,7 +164,8 @@ def snapshot(objs):
             xs.append([float(a[0]), float(a[1]), float(a[2])])
             lo = a.__array_interface__["data"][0]
             ranges.append((lo, lo + max(1, (a.shape[0] - 1) * abs(a.strides[0]) + a.itemsize)))
-        out.append({"xyz": xs})
+        at, ids = attr_state(o)
+        out.append({"xyz": xs, "attrs": at, "attr_ids": ids, "elems": elem_state(o)})
     # classes: identical start address = one buffer; partial overlaps are reported as an error
     order = sorted(range(len(ranges)), key=lambda i: ranges[i])
     for a, b in zip(order, order[1:]):
@@ -158,6 +205,10 @@ def combi(o, extra=None):
     return d
 
 
+def num(x):
+    return int(x) if INTS[0] and float(x) == int(x) else float(x)
+
+
 def param(objs, p):
     if p is None:
         return None
@@ -173,6 +224,7 @@ def run_case(case, scratch):
     objs = []
     steps = []
     keep = []
+    INTS[0] = bool(case.get("ints"))
     for n, op in enumerate(case["ops"]):
         name = op[0]
         new = None
@@ -219,6 +271,50 @@ def run_case(case, scratch):
                     new, v2v = M.processing.extract_boundary_of_surface(src)
                     inv = {int(b): int(a) for a, b in v2v.items()}
                     info = combi(new, [inv[i] for i in range(len(new.vertices))])
+            elif name == "tree":
+                T_ = M.processing.trees
+                cls = {"edge": T_.EdgeSpanningTree, "face": T_.FaceSpanningTree, "cell": T_.CellSpanningTree}[op[2]]
+                src = objs[op[1]]
+                tr = cls(src, 0)()
+                new = tr.build_tree_as_polyline()
+                info = combi(new)
+                info["shares_attr"] = False
+                cont = {"face": "faces", "cell": "cells"}.get(op[2])
+                if cont and getattr(src, cont).has_attribute("barycenter"):
+                    bar = getattr(src, cont).get_attribute("barycenter")
+                    store = np.asarray(bar._data) if isinstance(bar._data, np.ndarray) else None
+                    for i, s_ in enumerate(slots(new)):
+                        a = np.asarray(s_)
+                        if (store is not None and np.shares_memory(a, store)) or \
+                                (store is None and any(np.shares_memory(a, np.asarray(v)) for v in bar._data.values())):
+                            info["shares_attr"] = True
+            elif name == "path":
+                r = M.processing.shortest_path(objs[op[1]], int(op[2]), [int(t) for t in op[3]], export_path_mesh=True)
+                new = r[1]
+                info = combi(new)
+            elif name == "cutgraph":
+                sc = M.processing.SingularityCutter(objs[op[1]], [int(t) for t in op[2]], verbose=False)
+                sc.run()
+                new = sc.cut_graph
+                info = combi(new)
+            elif name == "features":
+                fd = M.processing.FeatureEdgeDetector(verbose=False)
+                fd.run(objs[op[1]])
+                new = fd.feature_graph
+                if new is None:
+                    raise RuntimeError("no feature graph")
+                info = combi(new)
+            elif name == "attr":
+                c = getattr(objs[op[1]], CONTS[op[2]])
+                at = c.create_attribute("a%d" % op[3], int, dense=bool(op[3] % 2))
+                for k, v in enumerate(op[4]):
+                    at[k] = int(v)
+            elif name == "attr_edit":
+                getattr(objs[op[1]], CONTS[op[2]]).get_attribute("a%d" % op[3])[int(op[4])] = int(op[5])
+            elif name == "elem_edit":
+                c = getattr(objs[op[1]], op[2])
+                el = list(c[int(op[3])])
+                c[int(op[3])] = tuple(el[1:] + el[:1]) if op[2] != "edges" else tuple(sorted(el))
             elif name == "copy":
                 src = objs[op[1]]
                 srcinfo = [combi(src)]
@@ -238,9 +334,9 @@ def run_case(case, scratch):
             elif name == "rotate":
                 T.rotate(objs[op[1]], np.array(op[2], dtype=float), param(objs, op[3]))
             elif name == "scale":
-                T.scale(objs[op[1]], float(op[2]), param(objs, op[3]))
+                T.scale(objs[op[1]], num(op[2]), param(objs, op[3]))
             elif name == "scale_xyz":
-                T.scale_xyz(objs[op[1]], float(op[2]), float(op[3]), float(op[4]), param(objs, op[5]))
+                T.scale_xyz(objs[op[1]], num(op[2]), num(op[3]), num(op[4]), param(objs, op[5]))
             elif name == "normalize":
                 T.normalize(objs[op[1]], bool(op[2]))
             elif name == "fit":
@@ -254,7 +350,7 @@ def run_case(case, scratch):
                 if isinstance(o, np.ndarray):
                     o[op[2], op[3]] = op[4]
                 else:
-                    o.vertices[op[2]][op[3]] = op[4]
+                    o.vertices[op[2]][op[3]] = num(op[4])
             elif name == "set":
                 objs[op[1]].vertices[op[2]] = V3(op[3])
             else:
